@@ -514,9 +514,28 @@ def _r6(ctx):
     from ..absint import Interp, TermDomain, term_select, term_walk
     f = prog.func(D + "_hcm_update_min_max_strain_values")
     params = [q for q in f.params if q != "self"]
-    prev = next((q for q in params if "previous" in q), None)
-    cur = next((q for q in params if "current_load" in q), None)
-    pt = next((q for q in params if "point" in q), None)
+    # roles, not names: the point is the parameter whose .strain is read; of the two loads, the previous one is the one whose
+    # call-site argument is re-assigned from the other's after the call (`previous = current` at the end of the loop body)
+    pt = next((q for q in params if any(isinstance(n, ast.Attribute) and n.attr == "strain" and isinstance(n.value, ast.Name) and
+                                        n.value.id == q for n in ast.walk(f.node))), None)
+    loads = [q for q in params if q != pt]
+    prev = cur = None
+    if pt and len(loads) == 2:
+        for g_ in prog.methods_of(prog.cls(D[:-1])).values():
+            for c_ in ast.walk(g_.node):
+                if isinstance(c_, ast.Call) and isinstance(c_.func, ast.Attribute) and c_.func.attr == f.name and \
+                        isinstance(c_.func.value, ast.Name) and c_.func.value.id == "self":
+                    amap = {k_.arg: k_.value for k_ in c_.keywords if k_.arg}
+                    amap.update(dict(zip(params, c_.args)))
+                    a_, b_ = amap.get(loads[0]), amap.get(loads[1])
+                    if isinstance(a_, ast.Name) and isinstance(b_, ast.Name):
+                        for s_ in walk_stmts(g_.node.body):
+                            if isinstance(s_, ast.Assign) and len(s_.targets) == 1 and isinstance(s_.targets[0], ast.Name) and \
+                                    isinstance(s_.value, ast.Name):
+                                if (s_.targets[0].id, s_.value.id) == (a_.id, b_.id):
+                                    prev, cur = loads
+                                elif (s_.targets[0].id, s_.value.id) == (b_.id, a_.id):
+                                    cur, prev = loads
     if not (prev and cur and pt):
         raise AnalysisError("_hcm_update_min_max_strain_values: parameters (previous load, current load, current point) not found")
     it = Interp(prog, TermDomain(), single_exit=True, follow=lambda c_: False)
